@@ -163,6 +163,16 @@ def _allowed(f, node, name, how, repo):
         return None
     if name == 'tokenizer' and 'set_return_set' in how and f.module.relpath.startswith(P + 'join/') and f.name.endswith('_join_py'):
         return 'tokenizer flag protocol (R-FLAG)'
+    if name == 'tokenizer' and 'set_return_set' in how and 'tokenizer' in f.params:
+        # a flag helper called only from the join functions: its effect is part of their typestate (R-FLAG)
+        cs = set()
+        for g in repo.all_funcs():
+            for c in repo.calls_in(g):
+                r = repo.resolve_call(g, c)
+                if r is not None and r[0] is f:
+                    cs.add(g)
+        if cs and all(g.module.relpath.startswith(P + 'join/') and g.name.endswith('_join_py') for g in cs):
+            return 'tokenizer flag helper of the join functions (R-FLAG)'
     return None
 
 
